@@ -32,6 +32,7 @@ IE = 'outrank.algorithms.importance_estimator'
 
 def run(repo, chk, tier):
     sampling(repo, chk)
+    stratum_buffers(repo, chk)
     estimator(repo, chk)
     forwarding(repo, chk)
 
@@ -87,6 +88,9 @@ def sampling(repo, chk):
             ups = [cn._add([('name', c), l]) for l in lens]
             if cursor != c or up not in ups:
                 ok_cursor, why = False, f'slice store {ast.unparse(st.targets[0])} does not end at cursor + len(stored values)'
+                if cursor == c:
+                    chk.bad('C04.1a', 'R4', fn.site(st), ast.unparse(st), f'the slice store starts at the cursor `{c}` but does not end at {c} + len(stored values): entries of the written prefix are left uninitialised or overwritten')
+                    why = None
                 break
             # followed by c += len(v)
             blk = par.get(st)
@@ -104,6 +108,9 @@ def sampling(repo, chk):
             others = [n for n in own_nodes(fn.node) if isinstance(n, ast.AugAssign) and isinstance(n.target, ast.Name) and n.target.id == cursor]
             if not (len(inits) == 1 and isinstance(inits[0].value, ast.Constant) and inits[0].value.value == 0 and len(others) == len(stores)):
                 ok_cursor, why = False, f'the cursor {cursor} must start at 0 and be modified only by the advance after each store'
+                if len(inits) == 1 and isinstance(inits[0].value, ast.Constant) and inits[0].value.value != 0:
+                    chk.bad('C04.1a', 'R4', fn.site(inits[0]), ast.unparse(inits[0]), f'the cursor starts at {inits[0].value.value}: the entries before it are never written but lie inside the prefix [:{cursor}] that is read')
+                    why = None
         if not ok_cursor and why is None:
             continue
         if not ok_cursor:
@@ -212,6 +219,34 @@ def sampling(repo, chk):
     # decorator: not compiled with options that could hide (1): record boundscheck
     deco = dict(fn.decorator_info()[0][1]) if fn.decorator_info() else {}
     chk.note(f'stratified_subsampling decorator options: {sorted(deco)} (boundscheck {"on" if "boundscheck" in deco else "off"})')
+
+
+def stratum_buffers(repo, chk):
+    """In compute_entropies every per-stratum buffer that is filled by `for k, row in enumerate(ROWS): B[k] = ...` must be allocated
+    with exactly len(ROWS) slots (derived from the row set itself, which under subsampling is the *sampled* stratum - not from the
+    full-data count) and must be zero-initialised or fully written."""
+    fn = repo.func(MI, 'compute_entropies')
+    m = fn.module
+    n = 0
+    for lp in [x for x in own_nodes(fn.node) if isinstance(x, ast.For)]:
+        it = lp.iter
+        if not (isinstance(it, ast.Call) and isinstance(it.func, ast.Name) and it.func.id == 'enumerate' and isinstance(lp.target, ast.Tuple)):
+            continue
+        rows = term_of(fn, it.args[0], inline=True)
+        k = lp.target.elts[0].id if isinstance(lp.target.elts[0], ast.Name) else None
+        for st in [x for x in ast.walk(lp) if isinstance(x, ast.Assign) and isinstance(x.targets[0], ast.Subscript) and isinstance(x.targets[0].value, ast.Name) and isinstance(x.targets[0].slice, ast.Name) and x.targets[0].slice.id == k]:
+            B = st.targets[0].value.id
+            allocs = [a for a in own_nodes(fn.node) if isinstance(a, ast.Assign) and isinstance(a.targets[0], ast.Name) and a.targets[0].id == B and isinstance(a.value, ast.Call) and (m.dotted(a.value.func) or '') in ('numpy.zeros', 'numpy.empty', 'numpy.ones', 'numpy.full')]
+            if len(allocs) != 1:
+                continue
+            size = term_of(fn, allocs[0].value.args[0], inline=True)
+            good_sizes = [('attr', rows, 'size'), ('call', ('name', 'len'), (rows,), ()), ('sub', ('attr', rows, 'shape'), ('num', 0))]
+            if rows[0] == 'call' and rows[1] == ('lib', 'numpy.where'):
+                continue
+            n += 1
+            chk.expect(size in good_sizes, 'C04.2b', 'R4', fn.site(allocs[0]), f'{ast.unparse(allocs[0])}  (filled over enumerate({ast.unparse(it.args[0])}))', 'the per-stratum buffer has one slot per row actually present in the (sampled) stratum',
+                       f'the buffer `{B}` is sized by {ast.unparse(allocs[0].value.args[0])} but filled over enumerate({ast.unparse(it.args[0])}): under subsampling the stratum holds fewer rows than the full-data count, so the tail of the buffer is never written (uninitialised memory with np.empty, spurious zero codes with np.zeros) and is counted into the score')
+    chk.require_count('per-stratum buffers filled by an enumerate loop in compute_entropies', n, 1)
 
 
 def estimator(repo, chk):
